@@ -471,6 +471,8 @@ class SyncObj(object):
                 if changeClusterRequest is None or self.__changeCluster(changeClusterRequest):
 
                     self.__raftLog.add(command, idx, term)
+                    if changeClusterRequest is not None:
+                        self.__changeClusterIDx = idx
 
                     if requestNode is None:
                         if callback is not None:
